@@ -131,6 +131,41 @@ def viol04Move (isEmpty : Vehicle → Bool) (pre post : Sim) : List String :=
         [s!"C04/moved-on-empty| vehicle {v.id} moved {Val.show (.q (v.odo - p.odo))} km in a step that left it without energy (level {Val.show (.q v.en.level)}); it should have gone out of service instead of moving"]
       else []
 
+/-- C06 per update phase, from positions alone: a vehicle is displaced no farther (as the crow
+    flies, `crow`: measured by the harness between the cells before and after) than its odometer
+    advanced - roads are at least as long as the straight line between their ends; and a vehicle
+    that stood still keeps its odometer -/
+def viol06Displacement (pre post : Sim) (crow : List (VehicleId × Rat)) : List String :=
+  crow.flatMap fun (i, d) =>
+    match pre.vehicle? i, post.vehicle? i with
+    | some p, some v =>
+      let adv := v.odo - p.odo
+      if d > adv + (1 / 1000000 : Rat) + adv * (1 / 1000000 : Rat) then
+        [s!"C06/displacement| vehicle {i} is displaced {Val.show (.q d)} km as the crow flies by one update phase while its odometer advanced only {Val.show (.q adv)} km (it covered road that no link of its route accounts for)"]
+      else []
+    | _, _ => []
+
+/-- C06 per update phase: a vehicle that stood at the end of its route in a travelling activity
+    when the phase began (route used up) has left that activity when the phase ends, or at least
+    is no longer a traveller without a route - "leaves the travelling activity within one step of
+    arriving" (only for the activities whose way out cannot be refused: Repositioning, DispatchTrip,
+    ServicingTrip) -/
+def viol06Stuck (isEmpty : Vehicle → Bool) (pre post : Sim) : List String :=
+  post.vehicles.flatMap fun v =>
+    match pre.vehicle? v.id with
+    | none => []
+    | some p =>
+      let stuckKind : Bool := match p.act, v.act with
+        | .repositioning [], .repositioning [] => true
+        | .dispatchTrip r [], .dispatchTrip r' [] =>
+          -- (a request that allows pooling goes down the pooling path, which the model does not cover)
+          r == r' && (match pre.request? r with | some q => !q.allowsPooling | none => true)
+        | .servicingTrip q _ [], .servicingTrip q' _ [] => q.id == q'.id
+        | _, _ => false
+      if stuckKind && !isEmpty v then
+        [s!"C06/stuck-after-arrival| vehicle {v.id} had used up its route before the update phase and is still in the same travelling activity ({v.act.kind}) with an empty route after it"]
+      else []
+
 /-- C19 per phase: per vehicle the move events of the phase sum to the odometer's advance and
     the charge events to the energy gained -/
 def viol19Step (pre post : Sim) (evs : List Event) : List String :=
